@@ -57,6 +57,34 @@ edit('interp/runner.go', lambda s: s.replace("""			sub := r.subshell(false)
 }
 
 func (r *Runner) updateExpandOpts() {"""))
+# fourth batch: refactors around the round-2/3 rules
+def to_method(s):
+    s=s.replace('func decodeValue(val reflect.Value, enc any) error {','type decoder struct{}\n\nfunc (d *decoder) decodeValue(val reflect.Value, enc any) error {')
+    s=re.sub(r'(?<![.\w])decodeValue\(', 'd.decodeValue(', s)
+    s=s.replace('func (d *decoder) d.decodeValue(','func (d *decoder) decodeValue(')
+    return s
+edit('syntax/typedjson/json.go', to_method)
+edit('syntax/typedjson/json.go', lambda s: s.replace('func (opts DecodeOptions) Decode(r io.Reader) (syntax.Node, error) {','func (opts DecodeOptions) Decode(r io.Reader) (syntax.Node, error) {\n\td := &decoder{}',1))
+edit('expand/environ.go', lambda s: renameIn(s,'func listEnviron_(','list','sorted'))
+edit('pattern/pattern.go', lambda s: s.replace("""		needsEscaping := false
+	noopLoop:
+		for _, r := range pat {
+			switch r {
+			// including those that need escaping since they are
+			// regular expression metacharacters
+			case '*', '?', '[', '\\\\', '.', '+', '(', ')', '|',
+				']', '{', '}', '^', '$':
+				needsEscaping = true
+				break noopLoop
+			}
+		}
+		if !needsEscaping {
+			return pat, nil
+		}""","""		// including those that need escaping since they are
+		// regular expression metacharacters
+		if !strings.ContainsAny(pat, `*?[\\.+()|]{}^$`) {
+			return pat, nil
+		}"""))
 PY
 GOFLAGS=-mod=mod GOPROXY=off go build ./...
 cd /verif
